@@ -18,6 +18,8 @@ Definition op_msg (o : op) : option dmsg :=
   | ODiscover _ m | ORequest _ m | ODecline m | ORelease m => Some m
   | _ => None
   end.
+(* the clock value the handler read during the op *)
+Definition op_now (o : op) : Z := match o with ODiscover n _ | ORequest n _ => n | _ => 0%Z end.
 Definition is_request (o : op) : bool := match o with ORequest _ _ => true | _ => false end.
 
 (* names of the C11 demands a step fails *)
@@ -90,7 +92,7 @@ Definition c12_fails (c : cfg) (t : tstep) : list string :=
            else []
        | None => []
        end)
-      ++ (if is_request (t_op t) && negb (c12_no_ack_when c (t_pre t) m (t_reply t)) then ["ack-unhonourable"] else [])
+      ++ (if is_request (t_op t) && negb (c12_no_ack_when c (t_pre t) m (op_now (t_op t)) (t_reply t)) then ["ack-unhonourable"] else [])
   | None => []
   end.
 
@@ -106,5 +108,13 @@ Definition all_nil (fs : list (list string)) : bool :=
   forallb (fun f => match f with [] => true | _ => false end) fs.
 
 (* ---------------------------------------------------------------- *)
-(* Recorded finding classes of C12: none left (c12-prl-router-before-mask was repaired by 94e2701). *)
-Definition c12_class (c : cfg) (t : tstep) : list (string * list string) := [].
+(* Recorded finding classes of C12 *)
+(* the client's lease is acknowledged but its expiry has passed (MinuteTicker has not freed it yet):
+   only the renewing path of handleRequest compares DHCPExpiry with the clock *)
+Definition known_c12_expired (t : tstep) : bool :=
+  match op_msg (t_op t) with
+  | Some m => lease_expired (t_pre t) m (op_now (t_op t))
+  | None => false
+  end.
+Definition c12_class (c : cfg) (t : tstep) : list (string * list string) :=
+  if known_c12_expired t then [("c12-expired-lease-acked", ["ack-unhonourable"])] else [].
